@@ -41,6 +41,9 @@ type Check struct {
 	// property violation (C17) rather than a harness error.
 	CrashIsViolation bool
 	Shards           int // 0 = default
+	// DeepQuick: the quick tier explores the thorough tier's universe (checks whose thorough tier
+	// costs seconds).
+	DeepQuick bool
 }
 
 var checks = map[string]*Check{}
@@ -510,7 +513,7 @@ func budget(tier string) time.Duration {
 
 func newCtx(ck *Check, tier string, shard, n int, seed int64) *Ctx {
 	return &Ctx{
-		Tier: tier, Thorough: tier == "thorough", Shard: shard, NShards: n, Seed: seed, OnlyUnit: -1,
+		Tier: tier, Thorough: tier == "thorough" || ck.DeepQuick, Shard: shard, NShards: n, Seed: seed, OnlyUnit: -1,
 		deadline: time.Now().Add(budget(tier)),
 		res:      &WorkerResult{Shard: shard, Classes: map[string]int64{}, Exhaustive: true},
 		distinct: map[uint64]struct{}{},
